@@ -8,10 +8,13 @@ EXTENDS RunModes, Json, SequencesExt
 
 CONSTANTS Codes, Signals
 
+\* "linger": the command exits with status n but leaves a descendant behind that keeps the inherited
+\* stdout/stderr open for a few seconds - its exit status is still n
 Outcomes == {[how |-> "exit", n |-> c] : c \in Codes} \cup {[how |-> "signal", n |-> s] : s \in Signals}
+            \cup {[how |-> "linger", n |-> c] : c \in {0, 3}}
 \* the exit number murex must report: the status itself, or "some non-zero number" (0 = must be zero,
 \* -1 = any non-zero value)
-MustReport(o) == IF o.how = "exit" THEN o.n ELSE -1
+MustReport(o) == IF o.how \in {"exit", "linger"} THEN o.n ELSE -1
 Failed(o) == o.how = "signal" \/ o.n # 0
 \* for the chain rules any non-zero exit behaves alike
 AsExit(o) == IF Failed(o) THEN 1 ELSE 0
